@@ -1397,7 +1397,7 @@ def c02_scripts(ctx, E, quick):
         raise Broken("script pass lost calls")
     chunks = {}
     for (m, ph, s), e in zip(allreq, calls):
-        if m == "sunmd5":
+        if m == "sunmd5" or len(e.get("cfs", [])) > 600:
             to_instances(e)
         else:
             e["cfs"] = {"k": "flat", "c": e.get("cfs", [])}
@@ -1406,7 +1406,7 @@ def c02_scripts(ctx, E, quick):
     # large traces: split the heavy methods further
     parts = []
     for m in names:
-        step = (1 if m == "sunmd5" else 3) if m in ("sha512crypt", "sha256crypt", "sunmd5") else 40
+        step = (1 if m == "sunmd5" else 3) if m in ("sha512crypt", "sha256crypt", "sunmd5", "md5crypt") else 40
         for i in range(0, len(chunks[m]), step):
             parts.append((m, chunks[m][i:i + step]))
     vs = ctx.validate_many([p[1] for p in parts], "TraceScripts.tla", "TraceScripts.cfg", "scr", par=6, timeout=3000)
